@@ -13,6 +13,10 @@ from translate.common import TranslatorError
 DEDUP = 'pyglove/core/geno/deduping.py'
 EVO = 'pyglove/ext/evolution/base.py'
 NSGA2 = 'pyglove/ext/evolution/nsga2.py'
+REGEVO = 'pyglove/ext/evolution/regularized_evolution.py'
+HILL = 'pyglove/ext/evolution/hill_climb.py'
+STEPWISE = 'pyglove/ext/scalars/step_wise.py'
+NEAT = 'pyglove/ext/evolution/neat.py'
 
 
 def _calls(node):
@@ -155,13 +159,109 @@ def nsga2_facts():
   return {'initFactor': init_factor, 'boundaryOverwrites': boundary, 'descending': descending}
 
 
+EXPECTED_PIPELINES = {
+    (REGEVO, 'regularized_evolution'): (
+        ['selectors.Random(tournament_size, seed=seed) >> selectors.Top(1) >> mutator'],
+        {'population_init': '(pg.geno.Random(seed=seed), population_size)',
+         'population_update': 'selectors.Last(population_size)'}),
+    (HILL, 'hill_climb'): (
+        ['selectors.Top(1) >> mutator * batch_size'],
+        {'population_init': '(pg.geno.Random(seed), init_population_size)',
+         'population_update': 'selectors.Top(1)'}),
+}
+
+
+def pipeline_facts():
+  """The operator pipelines of regularized_evolution / hill_climb as mirrored by PgModel/GenOps.lean."""
+  out = {}
+  for (rel, name), (args, kws) in EXPECTED_PIPELINES.items():
+    _, tree = common.parse_source(rel)
+    fn = common.find_func(tree, name)
+    calls = [n for n in ast.walk(fn) if isinstance(n, ast.Call) and ast.unparse(n.func) == 'base.Evolution']
+    if len(calls) != 1:
+      raise TranslatorError('%s(): expected one base.Evolution(...) call' % name)
+    got_args = [ast.unparse(a) for a in calls[0].args]
+    got_kws = {k.arg: ast.unparse(k.value) for k in calls[0].keywords}
+    if got_args != args or got_kws != kws:
+      raise TranslatorError('%s(): operator pipeline changed: args=%s keywords=%s' % (name, got_args, got_kws))
+    out[name] = {'reproduction': args[0], **kws}
+  return out
+
+
+def stepwise_fact():
+  """Is `StepWise.call` stateful (a phase counter advanced by the calls) or a function of `step`?"""
+  _, tree = common.parse_source(STEPWISE)
+  cls = common.find_class(tree, 'StepWise')
+  call = common.find_func(cls, 'call')
+  text = ast.unparse(call)
+  assigns_state = any(isinstance(n, (ast.Assign, ast.AugAssign)) and 'self._' in ast.unparse(
+      n.targets[0] if isinstance(n, ast.Assign) else n.target) for n in ast.walk(call))
+  if assigns_state:
+    if 'self._current_phase += 1' not in text or 'self._last_value' not in text:
+      raise TranslatorError('StepWise.call: unknown stateful shape')
+    return True
+  if ('self._phase_ending_steps' not in text or 'step = max(0, min(step, ending_steps[-1]))' not in text
+      or 'while phase < len(ending_steps) - 1 and step > ending_steps[phase]' not in text):
+    raise TranslatorError('StepWise.call: unknown stateless shape')
+  return False
+
+
+EXPECTED_NEAT = {
+    'reproduction': "base.GlobalStateGetter('living_species') >> selectors.Proportional(population_size, "
+                    "scaled_average_fitness()).for_each((lambda x: x.members) >> selectors.Top(remaining_ratio) >> "
+                    "selectors.Random(1, seed=seed)).flatten() >> mutator",
+    'population_init': '(pg.geno.Random(seed=seed), population_size)',
+    'population_update': 'selectors.Top(1, cluster=True, key=base.get_generation_id) >> '
+                         'speciate(distance=compatibility_distance(disjoint_coefficient=disjoint_coefficient, '
+                         'matching_coefficient=matching_coefficient), distance_threshold=compatibility_threshold)',
+}
+
+
+def neat_facts():
+  """Pipeline, default coefficients and the shape of `speciate` (mirrored by PgModel/Neat.lean)."""
+  from fractions import Fraction
+  _, tree = common.parse_source(NEAT)
+  fn = common.find_func(tree, 'neat')
+  calls = [n for n in ast.walk(fn) if isinstance(n, ast.Call) and ast.unparse(n.func) == 'base.Evolution']
+  if len(calls) != 1:
+    raise TranslatorError('neat(): expected one base.Evolution(...) call')
+  got = {k.arg: ast.unparse(k.value) for k in calls[0].keywords}
+  if got != EXPECTED_NEAT or calls[0].args:
+    raise TranslatorError('neat(): operator pipeline changed: %s' % got)
+  names = [a.arg for a in fn.args.args]
+  defaults = dict(zip(names[len(names) - len(fn.args.defaults):], [ast.unparse(d) for d in fn.args.defaults]))
+  tenths = {}
+  for key in ('matching_coefficient', 'compatibility_threshold'):
+    v = Fraction(defaults.get(key, 'x')) * 10 if defaults.get(key, '').replace('.', '').isdigit() else None
+    if v is None or v.denominator != 1:
+      raise TranslatorError('neat(): default of %s is not a number of tenths: %r' % (key, defaults.get(key)))
+    tenths[key] = int(v)
+  sp = ast.unparse(common.find_func(tree, 'speciate'))
+  for needle in ("dna.userdata.get(_USERDATA_KEY_SPECIES)", 'if dist <= distance_threshold:', 'species.add(dna)',
+                 'parent_species.add(dna)', 'species.clear()',
+                 'global_state.living_species = [s for s in global_state.living_species if s]'):
+    if needle not in sp:
+      raise TranslatorError('speciate(): %r not found (the bookkeeping changed)' % needle)
+  cd = ast.unparse(common.find_func(tree, 'compatibility_distance'))
+  if 'disjoint_coefficient * float(d) / float(n) + matching_coefficient * float(w) / float(n)' not in cd:
+    raise TranslatorError('compatibility_distance(): formula changed')
+  diff = ast.unparse(common.find_func(tree, '_compute_diff'))
+  if 'return (n, 1, n - 1)' not in diff or 'n = 0 if left.value is None else 1' not in diff:
+    raise TranslatorError('_compute_diff(): changed')
+  return {'matching10': tenths['matching_coefficient'], 'threshold10': tenths['compatibility_threshold']}
+
+
 def run():
   forwards, d_info = dedup_facts()
   order, bump, per_call, e_info = evo_facts()
   nf = nsga2_facts()
+  pipes = pipeline_facts()
+  sw = stepwise_fact()
+  neat = neat_facts()
   lean = '''/- GENERATED by translate/t_c15.py from the current source of /repo — do not edit. -/
 import PgModel.Gen
 import PgModel.Nsga2
+import PgModel.Neat
 namespace Pg.C15
 
 /-- Structural facts of `Deduping.recover/_replay` and `Evolution.recover` in the current source. -/
@@ -172,11 +272,19 @@ def currentQuirks : Quirks :=
 def nsga2Facts : Nsga2.Facts :=
   { initFactor := %d, boundaryOverwrites := %s, descending := %s }
 
+/-- `scalars.StepWise.call` keeps a phase counter between calls (pinned) / is a function of the step. -/
+def stepWiseStateful : Bool := %s
+
+/-- Default coefficients of `pg.evolution.neat` (tenths); pipeline and `speciate` shape checked by the translator. -/
+def neatFacts : Neat.Facts := { matching10 := %d, threshold10 := %d }
+
 end Pg.C15
 ''' % (common.lean_bool(forwards), common.lean_bool(order), common.lean_bool(bump), common.lean_bool(per_call),
-       nf['initFactor'], common.lean_bool(nf['boundaryOverwrites']), common.lean_bool(nf['descending']))
-  sidecar = {'sources': {DEDUP: common.sha(DEDUP), EVO: common.sha(EVO), NSGA2: common.sha(NSGA2)},
-             'nsga2': nf,
+       nf['initFactor'], common.lean_bool(nf['boundaryOverwrites']), common.lean_bool(nf['descending']), common.lean_bool(sw),
+       neat['matching10'], neat['threshold10'])
+  sidecar = {'sources': {DEDUP: common.sha(DEDUP), EVO: common.sha(EVO), NSGA2: common.sha(NSGA2),
+                         REGEVO: common.sha(REGEVO), HILL: common.sha(HILL), STEPWISE: common.sha(STEPWISE), NEAT: common.sha(NEAT)},
+             'nsga2': nf, 'pipelines': pipes, 'stepWiseStateful': sw, 'neat': neat,
              'quirks': {'dedupForwardsReplay': forwards, 'evoProposalOrder': order, 'evoInitGenBump': bump,
                         'evoInitDonePerCall': per_call},
              'matched': {'deduping': d_info, 'evolution': e_info}}
